@@ -171,6 +171,16 @@ def matrixWindow (c : MCase) : Option (Nat × Nat) :=
 def junkCur (k salt : Nat) : List Gen.Opt.ScoreCell := (List.range k).map fun i => ⟨(i * 37 + salt) % 700, (i + salt) % 11, (i + salt) % 2 == 0⟩
 def junkCells (k salt : Nat) : List Gen.Opt.MatrixCell := (List.range k).map fun i => ⟨(i + salt) % 4⟩
 
+/-- FNV-1a over bytes, as the cfg-gated hook in `matcher/src/verif.rs: record_matrix` computes it -/
+def fnv (bytes : List Nat) : UInt64 :=
+  bytes.foldl (fun (h : UInt64) b => (h ^^^ UInt64.ofNat b) * 0x100000001b3) 0xcbf29ce484222325
+
+def matrixDigest (st : List Nat × List Gen.Opt.ScoreCell × List Gen.Opt.MatrixCell) : String :=
+  let b1 := st.1.flatMap fun o => [o % 256, o / 256 % 256]
+  let b2 := st.2.1.flatMap fun c => [c.score % 256, c.score / 256 % 256, c.consecutive_bonus % 256, if c.matched then 1 else 0]
+  let b3 := st.2.2.map fun c => c.f0 % 256
+  s!"{(fnv (b1 ++ b2 ++ b3)).toNat}:{st.1.length}:{st.2.2.length}"
+
 def mLine (ws : List String) : String := Id.run do
   let get := fun k => (field ws k).getD ""
   let cfgId := (get "cfg").toNat?.getD 0
@@ -199,6 +209,17 @@ def mLine (ws : List String) : String := Id.run do
             let code := OptImpl.optimalImpl c.cfg cols c.n st (junkCur w salt) (junkCells (w * c.n.length) salt)
             if showRes code ≠ ires then
               issues := issues ++ [s!"DIFF {an}: compressed-matrix model {showRes code} impl {ires} (window {st}..{e})"]
+            -- what the real matcher left in its scratch memory (row offsets, last score row, back-pointer cells), for the
+            -- fresh, the used and the poisoned matcher, against the code-level model started on junk
+            let mx := get "mx"
+            if mx ≠ "" then
+              let want := (OptImpl.matrixState c.cfg cols c.n st (junkCur w salt) (junkCells (w * c.n.length) salt)).map matrixDigest
+              let got := if mx = "-" then [] else mx.splitOn ","
+              match want with
+              | none => if !got.isEmpty then issues := issues ++ [s!"DIFF {an}: the implementation built a matrix ({mx}) where the model's setup finds no match"]
+              | some d =>
+                if got.isEmpty || got.any (· ≠ d) then
+                  issues := issues ++ [s!"DIFF {an}: internal state of the compressed matrix (digest:rows:cells): model {d} impl {mx} (window {st}..{e})"]
     | _ => issues := issues ++ ["bad-res-field"]
   -- C04: prefix preference never lowers a score and raises it by at most the prefix bonus
   match (get "ppo").splitOn "/" with
